@@ -106,7 +106,6 @@ func runC07(rc *RunCtx) {
 		k = 1 + T.Choose("k", 12)
 		final = T.Choose("final", 2)
 	}
-	op := c07Ops[oi]
 	ln := LNConfig{FeePolicy: 1}
 	fee := uint(0)
 	if random {
@@ -127,408 +126,429 @@ func runC07(rc *RunCtx) {
 		}
 		m.step = 100
 	}
-	fk := "crash"
-	if faultKind == 1 {
-		fk = "db_error"
-	}
-	rc.Op(fmt.Sprintf("%s %s@%d final=%d", op, fk, k, final))
-	family := op
-	switch {
-	case strings.HasPrefix(op, "melt_"):
-		family = "melt"
-	case strings.HasPrefix(op, "resolve_"):
-		family = "resolve"
-	case op == "mint_locked":
-		family = "mint"
-	}
-	opFault := "none"
-	vio := func(clause, what, format string, a ...any) {
-		fp := family + "|" + opFault + "|" + what
-		W.Book.Violate("C07."+clause+"."+what, fp, "%s with %s: %s", op, rc.S.LastFault, fmt.Sprintf(format, a...))
-	}
+	round := 0
+	faulted := func(oi, faultKind, k, final int) {
+		round++
+		opName := fmt.Sprintf("op%d", round)
+		op := c07Ops[oi]
+		fk := "crash"
+		if faultKind == 1 {
+			fk = "db_error"
+		}
+		rc.S.Quiet = false
+		rc.Op(fmt.Sprintf("%s %s@%d final=%d", op, fk, k, final))
+		family := op
+		switch {
+		case strings.HasPrefix(op, "melt_"):
+			family = "melt"
+		case strings.HasPrefix(op, "resolve_"):
+			family = "resolve"
+		case op == "mint_locked":
+			family = "mint"
+		}
+		opFault := "none"
+		vio := func(clause, what, format string, a ...any) {
+			fp := family + "|" + opFault + "|" + what
+			W.Book.Violate("C07."+clause+"."+what, fp, "%s with %s: %s", op, rc.S.LastFault, fmt.Sprintf(format, a...))
+		}
 
-	ks := W.ActiveKeyset("A")
-	plan := &FaultPlan{Node: "A", Kind: fk, Pos: k}
-	if fk == "db_error" {
-		plan.SeamKind = "db"
-	}
+		ks := W.ActiveKeyset("A")
+		plan := &FaultPlan{Node: "A", Kind: fk, Pos: k}
+		if fk == "db_error" {
+			plan.SeamKind = "db"
+		}
 
-	// ---- op-specific preparation (quiet) ----
-	var mq *MintQuote
-	var lq *MeltQuote
-	var ins []*HProof
-	var outs []*HOutput
-	var inv *LNInvoice
-	var resp *Resp
-	var before keysetSnap
-	rc.Quietly(func() {
-		before = snapKeysets(W, "A")
-		switch op {
-		case "mint", "mint_locked":
-			mq, _ = m.User.ReqMintQuote("A", 64, op == "mint_locked")
-			W.LN.PayExternal(mq.Hash)
-			outs = W.NewOutputs(Split(64), ks.ID)
-		case "swap":
-			ins = m.pickProofs("A", 2)
-			f := m.feeFor("A", ins)
-			if ins == nil || SumH(ins) <= f {
-				ins = nil
-				return
-			}
-			outs = W.NewOutputs(Split(SumH(ins)-f), ks.ID)
-			m.User.remove("A", ins) // not available to concurrent background requests
-		case "melt_succ", "melt_pend", "melt_failfail", "melt_failnf", "melt_err", "resolve_poll", "resolve_cs":
-			inv = W.LN.NewExternalInvoice(40 * 1000)
-			sc := &LNScript{}
+		// ---- op-specific preparation (quiet) ----
+		var mq *MintQuote
+		var lq *MeltQuote
+		var ins []*HProof
+		var outs []*HOutput
+		var inv *LNInvoice
+		var resp *Resp
+		var before keysetSnap
+		rc.Quietly(func() {
+			before = snapKeysets(W, "A")
 			switch op {
-			case "melt_succ":
-				sc.Pay = "succeeded"
-			case "melt_pend", "resolve_poll", "resolve_cs":
-				sc.Pay = "pending"
-			case "melt_failfail":
-				sc.Pay, sc.Status = "failed", []string{"failed"}
-			case "melt_failnf":
-				sc.Pay, sc.Status = "failed", []string{"notfound"}
-			case "melt_err":
-				sc.Pay = "error"
-			}
-			W.LN.Scripts[inv.Hash] = sc
-			lq, _ = m.User.ReqMeltQuote("A", inv.Bolt11, 0)
-			if lq == nil {
-				return
-			}
-			ins = m.TakeFor("A", lq.Amount+lq.Reserve)
-			if ins == nil {
-				return
-			}
-			m.User.remove("A", ins)
-			if strings.HasPrefix(op, "resolve") {
-				r := m.User.Melt("A", lq.ID, ins)
-				if RespState(r) != "PENDING" {
-					harnessf("resolve setup: melt did not stay pending: %v", r)
+			case "mint", "mint_locked":
+				mq, _ = m.User.ReqMintQuote("A", 64, op == "mint_locked")
+				W.LN.PayExternal(mq.Hash)
+				outs = W.NewOutputs(Split(64), ks.ID)
+			case "swap":
+				ins = m.pickProofs("A", 2)
+				f := m.feeFor("A", ins)
+				if ins == nil || SumH(ins) <= f {
+					ins = nil
+					return
 				}
-				W.LN.ResolveInflight("A|"+inv.Hash, final == 1)
-			}
-		case "internal":
-			mq, _ = m.User.ReqMintQuote("A", 32, false)
-			lq, _ = m.User.ReqMeltQuote("A", mq.Request, 0)
-			if lq == nil {
-				return
-			}
-			ins = m.TakeFor("A", lq.Amount+lq.Reserve)
-			if ins == nil {
-				return
-			}
-			m.User.remove("A", ins)
-			outs = W.NewOutputs(Split(32), ks.ID)
-		}
-	})
-
-	switch op {
-	case "swap":
-		if ins == nil || len(outs) == 0 {
-			return
-		}
-	case "mint", "mint_locked":
-		if mq == nil {
-			return
-		}
-	case "melt_succ", "melt_pend", "melt_failfail", "melt_failnf", "melt_err", "resolve_poll", "resolve_cs", "internal":
-		if lq == nil || ins == nil {
-			return // not enough funds left after the prior history: trivial run
-		}
-	}
-
-	// ---- the faulted operation ----
-	rc.S.BeginEpisode(plan)
-	node := W.Mints["A"]
-	bgOn := random && T.Chance("bg", 1, 2)
-	if bgOn {
-		// a concurrent unrelated request
-		bins := m.pickProofs("A", 1)
-		if bins != nil {
-			bf := m.feeFor("A", bins)
-			if SumH(bins) > bf {
-				bouts := W.NewOutputs(Split(SumH(bins)-bf), ks.ID)
-				rc.S.Go("bgswap", W.Ext, true, func() {
-					a := NewActor(W, "bgswap")
-					ps, r := a.Swap("A", bins, bouts)
-					if r.OK() {
-						m.User.remove("A", bins)
-						m.Spent["A"] = append(m.Spent["A"], bins...)
-						m.User.Purse["A"] = append(m.User.Purse["A"], ps...)
-					} else {
-						m.User.remove("A", bins) // unknown outcome: audit decides
+				outs = W.NewOutputs(Split(SumH(ins)-f), ks.ID)
+				m.User.remove("A", ins) // not available to concurrent background requests
+			case "melt_succ", "melt_pend", "melt_failfail", "melt_failnf", "melt_err", "resolve_poll", "resolve_cs":
+				inv = W.LN.NewExternalInvoice(40 * 1000)
+				sc := &LNScript{}
+				switch op {
+				case "melt_succ":
+					sc.Pay = "succeeded"
+				case "melt_pend", "resolve_poll", "resolve_cs":
+					sc.Pay = "pending"
+				case "melt_failfail":
+					sc.Pay, sc.Status = "failed", []string{"failed"}
+				case "melt_failnf":
+					sc.Pay, sc.Status = "failed", []string{"notfound"}
+				case "melt_err":
+					sc.Pay = "error"
+				}
+				W.LN.Scripts[inv.Hash] = sc
+				lq, _ = m.User.ReqMeltQuote("A", inv.Bolt11, 0)
+				if lq == nil {
+					return
+				}
+				ins = m.TakeFor("A", lq.Amount+lq.Reserve)
+				if ins == nil {
+					return
+				}
+				m.User.remove("A", ins)
+				if strings.HasPrefix(op, "resolve") {
+					r := m.User.Melt("A", lq.ID, ins)
+					if RespState(r) != "PENDING" {
+						harnessf("resolve setup: melt did not stay pending: %v", r)
 					}
-				})
+					W.LN.ResolveInflight("A|"+inv.Hash, final == 1)
+				}
+			case "internal":
+				mq, _ = m.User.ReqMintQuote("A", 32, false)
+				lq, _ = m.User.ReqMeltQuote("A", mq.Request, 0)
+				if lq == nil {
+					return
+				}
+				ins = m.TakeFor("A", lq.Amount+lq.Reserve)
+				if ins == nil {
+					return
+				}
+				m.User.remove("A", ins)
+				outs = W.NewOutputs(Split(32), ks.ID)
+			}
+		})
+
+		switch op {
+		case "swap":
+			if ins == nil || len(outs) == 0 {
+				return
+			}
+		case "mint", "mint_locked":
+			if mq == nil {
+				return
+			}
+		case "melt_succ", "melt_pend", "melt_failfail", "melt_failnf", "melt_err", "resolve_poll", "resolve_cs", "internal":
+			if lq == nil || ins == nil {
+				return // not enough funds left after the prior history: trivial run
 			}
 		}
-	}
-	owner := W.Ext
-	if op == "rotate" {
-		owner = node.Inc
-	}
-	rc.S.Go("op", owner, true, func() {
+
+		// ---- the faulted operation ----
+		rc.S.BeginEpisode(plan)
+		node := W.Mints["A"]
+		bgOn := random && T.Chance("bg", 1, 2)
+		if bgOn {
+			// a concurrent unrelated request
+			bins := m.pickProofs("A", 1)
+			if bins != nil {
+				bf := m.feeFor("A", bins)
+				if SumH(bins) > bf {
+					bouts := W.NewOutputs(Split(SumH(bins)-bf), ks.ID)
+					rc.S.Go(opName+".bgswap", W.Ext, true, func() {
+						a := NewActor(W, "bgswap")
+						ps, r := a.Swap("A", bins, bouts)
+						if r.OK() {
+							m.User.remove("A", bins)
+							m.Spent["A"] = append(m.Spent["A"], bins...)
+							m.User.Purse["A"] = append(m.User.Purse["A"], ps...)
+						} else {
+							m.User.remove("A", bins) // unknown outcome: audit decides
+						}
+					})
+				}
+			}
+		}
+		owner := W.Ext
+		if op == "rotate" {
+			owner = node.Inc
+		}
+		rc.S.Go(opName, owner, true, func() {
+			switch op {
+			case "mintquote":
+				mq, resp = m.User.ReqMintQuote("A", 16, false)
+			case "mint", "mint_locked":
+				_, resp = m.User.Mint("A", mq, outs, "")
+			case "swap":
+				_, resp = m.User.Swap("A", ins, outs)
+			case "melt_succ", "melt_pend", "melt_failfail", "melt_failnf", "melt_err", "internal":
+				resp = m.User.Melt("A", lq.ID, ins)
+			case "resolve_poll":
+				resp = m.User.PollMeltQuote("A", lq.ID)
+			case "resolve_cs":
+				resp = m.User.CheckState("A", []string{ins[0].Y()})
+			case "rotate":
+				_, err := node.M.RotateKeyset(100)
+				resp = &Resp{Status: 200}
+				if err != nil {
+					resp = &Resp{Status: 500, Detail: err.Error()}
+				}
+			}
+		})
+		rc.S.Drive(false)
+		fired := plan.fired
+		if !fired {
+			rc.S.LastFault = "none"
+		} else {
+			// the fault as the operation under test met it: where its own task stood when the
+			// node died, or the call of its own that failed
+			opTask := opName + "/h1"
+			if op == "rotate" {
+				opTask = opName
+			}
+			if fk == "crash" {
+				if l, ok := rc.S.CrashedAt[opTask]; ok {
+					opFault = "crash@" + NormLabel(l)
+				} else {
+					opFault = "crash@elsewhere"
+				}
+			} else if rc.S.FaultTask == opTask {
+				opFault = rc.S.LastFault
+			} else {
+				opFault = "db_error@elsewhere"
+			}
+		}
+		rc.Nontrivial = fired
+		acked := resp != nil && resp.OK()
+
+		// ---- restart ----
+		rc.S.Quiet = true
+		crashed := !node.Inc.Alive
+		if crashed {
+			_, err := W.StartMint("A", gmint.Config{InputFeePpk: fee})
+			if err != nil {
+				vio("S", "load_fails", "LoadMint on the same directory fails after the crash: %v", err)
+				return
+			}
+			rc.S.Stats["restart_after_crash"]++
+		}
+		if op == "rotate" && !crashed && fired {
+			// a storage error inside the rotation: the operator restarts the mint afterwards; the keysets must
+			// then be exactly the old or exactly the new set as well
+			mid := snapKeysets(W, "A")
+			if mid.activeCount() != 1 {
+				vio("S", "active_count", "%d active keysets right after a failed rotation", mid.activeCount())
+			}
+			if err := W.RestartMint("A", nil); err != nil {
+				vio("S", "load_fails", "LoadMint fails after a rotation that met a storage error: %v", err)
+				return
+			}
+			rc.S.Stats["restart_after_db_error"]++
+		}
+		after := snapKeysets(W, "A")
+		if op == "rotate" {
+			// exactly the old set or exactly the new set (old + one new active keyset)
+			switch {
+			case after.String() == before.String():
+			case len(after) == len(before)+1 && after.activeCount() == 1:
+				for id, v := range before {
+					if !strings.HasSuffix(after[id], v[strings.Index(v, "|"):]) {
+						vio("S", "keys_changed", "keyset %s has different keys after interrupted rotation", id)
+					}
+				}
+			default:
+				vio("S", "keysets_torn", "keysets after interrupted rotation are neither the old nor the new set: before [%s] after [%s]", before, after)
+			}
+			if after.activeCount() != 1 {
+				vio("S", "active_count", "%d active keysets after interrupted rotation", after.activeCount())
+			}
+			W.RefreshKeysets("A", 100)
+		} else if after.String() != before.String() {
+			vio("S", "keysets_changed", "keysets changed across crash: before [%s] after [%s]", before, after)
+		}
+		ks = W.ActiveKeyset("A")
+		if ks == nil {
+			vio("S", "no_active_keyset", "no active keyset after restart")
+			return
+		}
+
+		// Lightning now truthful; in-flight payments reach their final outcome
+		if inv != nil {
+			if sc := W.LN.Scripts[inv.Hash]; sc != nil {
+				sc.pos = len(sc.Status)
+			}
+			W.LN.ResolveInflight("A|"+inv.Hash, final == 1)
+		}
+
+		// ---- D: durability of everything acknowledged before the fault ----
+		var known []*HOutput
+		mb := W.Book.Mint("A")
+		for _, b := range W.OutOrder {
+			if o := W.Outputs[b]; o != nil && mb.Sigs[b] != nil {
+				known = append(known, o)
+			}
+		}
+		if len(known) > 0 {
+			m.User.Restore("A", known) // Book: C15.restore_missing / restore_mismatch
+		}
+		var spentYs []string
+		for _, p := range m.Spent["A"] {
+			spentYs = append(spentYs, p.Y())
+		}
+		if len(spentYs) > 0 {
+			m.User.CheckState("A", spentYs) // Book: C01.spent_not_reported
+		}
+
+		// ---- A: atomicity of the interrupted operation ----
+		restorable := func(os []*HOutput) int {
+			r := m.User.Restore("A", os)
+			if !r.OK() {
+				return 0
+			}
+			sg, _ := r.Body["signatures"].([]any)
+			return len(sg)
+		}
 		switch op {
 		case "mintquote":
-			mq, resp = m.User.ReqMintQuote("A", 16, false)
+			if acked {
+				if r := m.User.PollMintQuote("A", mq.ID); !r.OK() {
+					vio("D", "quote_lost", "acknowledged mint quote unknown after restart: %v", r)
+				}
+			}
 		case "mint", "mint_locked":
-			_, resp = m.User.Mint("A", mq, outs, "")
-		case "swap":
-			_, resp = m.User.Swap("A", ins, outs)
-		case "melt_succ", "melt_pend", "melt_failfail", "melt_failnf", "melt_err", "internal":
-			resp = m.User.Melt("A", lq.ID, ins)
-		case "resolve_poll":
-			resp = m.User.PollMeltQuote("A", lq.ID)
-		case "resolve_cs":
-			resp = m.User.CheckState("A", []string{ins[0].Y()})
-		case "rotate":
-			_, err := node.M.RotateKeyset(100)
-			resp = &Resp{Status: 200}
-			if err != nil {
-				resp = &Resp{Status: 500, Detail: err.Error()}
-			}
-		}
-	})
-	rc.S.Drive(false)
-	fired := plan.fired
-	if !fired {
-		rc.S.LastFault = "none"
-	} else {
-		// the fault as the operation under test met it: where its own task stood when the
-		// node died, or the call of its own that failed
-		opTask := "op/h1"
-		if op == "rotate" {
-			opTask = "op"
-		}
-		if fk == "crash" {
-			if l, ok := rc.S.CrashedAt[opTask]; ok {
-				opFault = "crash@" + NormLabel(l)
-			} else {
-				opFault = "crash@elsewhere"
-			}
-		} else if rc.S.FaultTask == opTask {
-			opFault = rc.S.LastFault
-		} else {
-			opFault = "db_error@elsewhere"
-		}
-	}
-	rc.Nontrivial = fired
-	acked := resp != nil && resp.OK()
-
-	// ---- restart ----
-	rc.S.Quiet = true
-	crashed := !node.Inc.Alive
-	if crashed {
-		_, err := W.StartMint("A", gmint.Config{InputFeePpk: fee})
-		if err != nil {
-			vio("S", "load_fails", "LoadMint on the same directory fails after the crash: %v", err)
-			return
-		}
-		rc.S.Stats["restart_after_crash"]++
-	}
-	if op == "rotate" && !crashed && fired {
-		// a storage error inside the rotation: the operator restarts the mint afterwards; the keysets must
-		// then be exactly the old or exactly the new set as well
-		mid := snapKeysets(W, "A")
-		if mid.activeCount() != 1 {
-			vio("S", "active_count", "%d active keysets right after a failed rotation", mid.activeCount())
-		}
-		if err := W.RestartMint("A", nil); err != nil {
-			vio("S", "load_fails", "LoadMint fails after a rotation that met a storage error: %v", err)
-			return
-		}
-		rc.S.Stats["restart_after_db_error"]++
-	}
-	after := snapKeysets(W, "A")
-	if op == "rotate" {
-		// exactly the old set or exactly the new set (old + one new active keyset)
-		switch {
-		case after.String() == before.String():
-		case len(after) == len(before)+1 && after.activeCount() == 1:
-			for id, v := range before {
-				if !strings.HasSuffix(after[id], v[strings.Index(v, "|"):]) {
-					vio("S", "keys_changed", "keyset %s has different keys after interrupted rotation", id)
-				}
-			}
-		default:
-			vio("S", "keysets_torn", "keysets after interrupted rotation are neither the old nor the new set: before [%s] after [%s]", before, after)
-		}
-		if after.activeCount() != 1 {
-			vio("S", "active_count", "%d active keysets after interrupted rotation", after.activeCount())
-		}
-		W.RefreshKeysets("A", 100)
-	} else if after.String() != before.String() {
-		vio("S", "keysets_changed", "keysets changed across crash: before [%s] after [%s]", before, after)
-	}
-	ks = W.ActiveKeyset("A")
-	if ks == nil {
-		vio("S", "no_active_keyset", "no active keyset after restart")
-		return
-	}
-
-	// Lightning now truthful; in-flight payments reach their final outcome
-	if inv != nil {
-		if sc := W.LN.Scripts[inv.Hash]; sc != nil {
-			sc.pos = len(sc.Status)
-		}
-		W.LN.ResolveInflight("A|"+inv.Hash, final == 1)
-	}
-
-	// ---- D: durability of everything acknowledged before the fault ----
-	var known []*HOutput
-	mb := W.Book.Mint("A")
-	for _, b := range W.OutOrder {
-		if o := W.Outputs[b]; o != nil && mb.Sigs[b] != nil {
-			known = append(known, o)
-		}
-	}
-	if len(known) > 0 {
-		m.User.Restore("A", known) // Book: C15.restore_missing / restore_mismatch
-	}
-	var spentYs []string
-	for _, p := range m.Spent["A"] {
-		spentYs = append(spentYs, p.Y())
-	}
-	if len(spentYs) > 0 {
-		m.User.CheckState("A", spentYs) // Book: C01.spent_not_reported
-	}
-
-	// ---- A: atomicity of the interrupted operation ----
-	restorable := func(os []*HOutput) int {
-		r := m.User.Restore("A", os)
-		if !r.OK() {
-			return 0
-		}
-		sg, _ := r.Body["signatures"].([]any)
-		return len(sg)
-	}
-	switch op {
-	case "mintquote":
-		if acked {
-			if r := m.User.PollMintQuote("A", mq.ID); !r.OK() {
-				vio("D", "quote_lost", "acknowledged mint quote unknown after restart: %v", r)
-			}
-		}
-	case "mint", "mint_locked":
-		if !acked {
-			fresh := W.NewOutputs(Split(64), ks.ID)
-			_, r := m.User.Mint("A", mq, fresh, "")
-			if !r.OK() {
-				// same outputs again?
-				_, r2 := m.User.Mint("A", mq, outs, "")
-				if !r2.OK() {
-					n := restorable(outs)
-					if n != len(outs) {
-						st := RespState(m.User.PollMintQuote("A", mq.ID))
-						vio("A", "mint_stranded", "invoice paid, mint retry rejected (%v), only %d of %d outputs restorable, quote state %s", r, n, len(outs), st)
-					} else {
-						rc.S.Probe("c07_mint_recovered_by_restore")
-					}
-				}
-			} else {
-				rc.S.Probe("c07_mint_retry_ok")
-			}
-		}
-	case "swap":
-		if !acked {
-			f := m.feeFor("A", ins)
-			_, r := m.User.Swap("A", ins, W.NewOutputs(Split(SumH(ins)-f), ks.ID))
-			if !r.OK() {
-				n := restorable(outs)
-				if n != len(outs) {
-					vio("A", "swap_stranded", "inputs no longer spendable (%v) and only %d of %d outputs restorable", r, n, len(outs))
-				} else {
-					rc.S.Probe("c07_swap_recovered_by_restore")
-				}
-			} else {
-				rc.S.Probe("c07_swap_retry_ok")
-				m.Spent["A"] = append(m.Spent["A"], ins...)
-			}
-		}
-	case "melt_succ", "melt_pend", "melt_failfail", "melt_failnf", "melt_err", "resolve_poll", "resolve_cs", "internal":
-		hash := ""
-		if inv != nil {
-			hash = inv.Hash
-		} else {
-			hash = mq.Hash
-		}
-		st := ""
-		for i := 0; i < 3; i++ {
-			st = RespState(m.User.PollMeltQuote("A", lq.ID))
-			if st != "PENDING" {
-				break
-			}
-		}
-		pay := W.LN.Payments["A|"+hash]
-		paid := pay != nil && pay.Truth == ptSucceeded
-		csr := m.User.CheckState("A", []string{ins[0].Y()})
-		pst := ""
-		if csr.OK() {
-			if arr, _ := csr.Body["states"].([]any); len(arr) > 0 {
-				pst, _ = arr[0].(map[string]any)["state"].(string)
-			}
-		}
-		if op == "internal" {
-			// no Lightning: either settled (quote PAID, inputs SPENT, mint quote mintable) or inputs spendable again
-			if st == "PAID" {
-				if pst != "SPENT" && pst != "PENDING" {
-					// (PENDING forever is tolerated here: the inputs are unusable, the client has its value)
-					vio("S", "internal_paid_inputs", "internal settlement reports PAID but inputs are %s", pst)
-				}
-				_, r := m.User.Mint("A", mq, outs, "")
+			if !acked {
+				fresh := W.NewOutputs(Split(64), ks.ID)
+				_, r := m.User.Mint("A", mq, fresh, "")
 				if !r.OK() {
-					vio("A", "internal_mint_stranded", "melt settled internally (PAID) but the mint quote cannot be minted: %v", r)
+					// same outputs again?
+					_, r2 := m.User.Mint("A", mq, outs, "")
+					if !r2.OK() {
+						n := restorable(outs)
+						if n != len(outs) {
+							st := RespState(m.User.PollMintQuote("A", mq.ID))
+							vio("A", "mint_stranded", "invoice paid, mint retry rejected (%v), only %d of %d outputs restorable, quote state %s", r, n, len(outs), st)
+						} else {
+							rc.S.Probe("c07_mint_recovered_by_restore")
+						}
+					}
+				} else {
+					rc.S.Probe("c07_mint_retry_ok")
 				}
-			} else {
+			}
+		case "swap":
+			if !acked {
 				f := m.feeFor("A", ins)
 				_, r := m.User.Swap("A", ins, W.NewOutputs(Split(SumH(ins)-f), ks.ID))
 				if !r.OK() {
-					// retry the melt itself
-					r2 := m.User.Melt("A", lq.ID, ins)
-					if !(r2.OK() && RespState(r2) == "PAID") {
-						vio("A", "internal_locked", "internal settlement interrupted: quote %s, inputs %s, neither spendable (%v) nor meltable (%v)", st, pst, r, r2)
+					n := restorable(outs)
+					if n != len(outs) {
+						vio("A", "swap_stranded", "inputs no longer spendable (%v) and only %d of %d outputs restorable", r, n, len(outs))
+					} else {
+						rc.S.Probe("c07_swap_recovered_by_restore")
+					}
+				} else {
+					rc.S.Probe("c07_swap_retry_ok")
+					m.Spent["A"] = append(m.Spent["A"], ins...)
+				}
+			}
+		case "melt_succ", "melt_pend", "melt_failfail", "melt_failnf", "melt_err", "resolve_poll", "resolve_cs", "internal":
+			hash := ""
+			if inv != nil {
+				hash = inv.Hash
+			} else {
+				hash = mq.Hash
+			}
+			st := ""
+			for i := 0; i < 3; i++ {
+				st = RespState(m.User.PollMeltQuote("A", lq.ID))
+				if st != "PENDING" {
+					break
+				}
+			}
+			pay := W.LN.Payments["A|"+hash]
+			paid := pay != nil && pay.Truth == ptSucceeded
+			csr := m.User.CheckState("A", []string{ins[0].Y()})
+			pst := ""
+			if csr.OK() {
+				if arr, _ := csr.Body["states"].([]any); len(arr) > 0 {
+					pst, _ = arr[0].(map[string]any)["state"].(string)
+				}
+			}
+			if op == "internal" {
+				// no Lightning: either settled (quote PAID, inputs SPENT, mint quote mintable) or inputs spendable again
+				if st == "PAID" {
+					if pst != "SPENT" && pst != "PENDING" {
+						// (PENDING forever is tolerated here: the inputs are unusable, the client has its value)
+						vio("S", "internal_paid_inputs", "internal settlement reports PAID but inputs are %s", pst)
+					}
+					_, r := m.User.Mint("A", mq, outs, "")
+					if !r.OK() {
+						vio("A", "internal_mint_stranded", "melt settled internally (PAID) but the mint quote cannot be minted: %v", r)
+					}
+				} else {
+					f := m.feeFor("A", ins)
+					_, r := m.User.Swap("A", ins, W.NewOutputs(Split(SumH(ins)-f), ks.ID))
+					if !r.OK() {
+						// retry the melt itself
+						r2 := m.User.Melt("A", lq.ID, ins)
+						if !(r2.OK() && RespState(r2) == "PAID") {
+							vio("A", "internal_locked", "internal settlement interrupted: quote %s, inputs %s, neither spendable (%v) nor meltable (%v)", st, pst, r, r2)
+						}
+					}
+				}
+				break
+			}
+			if paid {
+				if st != "PAID" || pst != "SPENT" {
+					vio("A", "paid_not_settled", "Lightning payment succeeded but after polling the quote is %s and the inputs are %s", st, pst)
+				} else {
+					rc.S.Probe("c07_melt_settled")
+				}
+			} else {
+				// no payment was made (or it failed): the inputs must become spendable again
+				f := m.feeFor("A", ins)
+				_, r := m.User.Swap("A", ins, W.NewOutputs(Split(SumH(ins)-f), ks.ID))
+				if !r.OK() {
+					truth := "none"
+					if pay != nil {
+						truth = pay.Truth.String()
+					}
+					vio("A", "melt_locked_no_payment", "no payment made (backend truth: %s) but inputs are %s, quote %s, follow-up swap rejected: %v", truth, pst, st, r)
+				} else {
+					rc.S.Probe("c07_melt_inputs_released")
+					m.Spent["A"] = append(m.Spent["A"], ins...)
+				}
+			}
+		case "rotate":
+			// traffic on old and new keysets still works
+			old := m.pickProofs("A", 1)
+			if old != nil {
+				f := m.feeFor("A", old)
+				if SumH(old) > f {
+					_, r := m.User.Swap("A", old, W.NewOutputs(Split(SumH(old)-f), ks.ID))
+					if !r.OK() {
+						vio("S", "old_proofs_rejected", "proof of the pre-rotation keyset rejected after interrupted rotation: %v", r)
 					}
 				}
 			}
-			break
 		}
-		if paid {
-			if st != "PAID" || pst != "SPENT" {
-				vio("A", "paid_not_settled", "Lightning payment succeeded but after polling the quote is %s and the inputs are %s", st, pst)
-			} else {
-				rc.S.Probe("c07_melt_settled")
-			}
-		} else {
-			// no payment was made (or it failed): the inputs must become spendable again
-			f := m.feeFor("A", ins)
-			_, r := m.User.Swap("A", ins, W.NewOutputs(Split(SumH(ins)-f), ks.ID))
-			if !r.OK() {
-				truth := "none"
-				if pay != nil {
-					truth = pay.Truth.String()
-				}
-				vio("A", "melt_locked_no_payment", "no payment made (backend truth: %s) but inputs are %s, quote %s, follow-up swap rejected: %v", truth, pst, st, r)
-			} else {
-				rc.S.Probe("c07_melt_inputs_released")
-				m.Spent["A"] = append(m.Spent["A"], ins...)
-			}
-		}
-	case "rotate":
-		// traffic on old and new keysets still works
-		old := m.pickProofs("A", 1)
-		if old != nil {
-			f := m.feeFor("A", old)
-			if SumH(old) > f {
-				_, r := m.User.Swap("A", old, W.NewOutputs(Split(SumH(old)-f), ks.ID))
-				if !r.OK() {
-					vio("S", "old_proofs_rejected", "proof of the pre-rotation keyset rejected after interrupted rotation: %v", r)
-				}
-			}
+
+	} // end of faulted()
+
+	faulted(oi, faultKind, k, final)
+	if random && T.Chance("second", 1, 3) {
+		// a second faulted operation on whatever state the first one left behind (double fault)
+		if node := W.Mints["A"]; node.Inc != nil && node.Inc.Alive && W.ActiveKeyset("A") != nil {
+			rc.S.Stats["c07_double_fault"]++
+			faulted(T.Choose("op2", len(c07Ops)), T.Choose("fault2", 2), 1+T.Choose("k2", 12), T.Choose("final2", 2))
 		}
 	}
 
 	// ---- S: safety: book invariants + drain audit ----
+	rc.S.Quiet = true
+	if node := W.Mints["A"]; node.Inc == nil || !node.Inc.Alive {
+		return
+	}
 	W.Book.FinalizeMelts()
 	m.Audit("A")
 }
